@@ -48,8 +48,8 @@ def run(repo, rep):
             ok, why = S.uniform_in_index(bf.node, lp)
             if not ok:
                 rep.undecided('C17.a', 'build_fncall:uniform-loop', bf.where, why)
-    for na in range(0, 3):
-        for nk in range(0, 3):
+    for na in range(0, S.bound(rep, 3, 4)):
+        for nk in range(0, S.bound(rep, 3, 4)):
             for bits in range(1 << (na + nk)):
                 cm = [bool((bits >> i) & 1) for i in range(na + nk)]
                 args = [S.sub('a%d' % i, cm[i]) for i in range(na)]
@@ -151,6 +151,24 @@ def run(repo, rep):
     n = 0
     n += _field_selection(repo, rep, 'extras.dataclasses', 'pretty_dataclass_instance', 'dataclass')
     n += _field_selection(repo, rep, 'extras.attrs', 'pretty_attrs', 'attrs')
+    # the selection keeps no state between calls (a memo of defaults goes stale when a class is re-defined)
+    from engine import effects
+    shared = effects.shared_objects(repo)
+    for site in effects.sites(repo, shared):
+        if site.fn is not None and site.fn.module.name.endswith(('extras.dataclasses', 'extras.attrs')) and site.fn.name != 'install':
+            n += 1
+            rep.check(site.kind != 'write', 'C17.c', '%s:module-state:%s:%s' % (site.fn.qualname, site.obj.name, site.detail), site.where,
+                      'read of module-level data',
+                      '%s %s the module-level %s %s: field defaults remembered across calls go stale (another class with the same '
+                      'qualified name, a changed factory) and fields are wrongly omitted or shown' % (site.fn.key, site.detail, site.obj.kind, site.obj.key),
+                      nontrivial=True)
+    for mod_ in (repo.module('extras.dataclasses'), repo.module('extras.attrs')):
+        for f_ in mod_.funcs.values():
+            for dec in f_.node.decorator_list:
+                d = dec.func if isinstance(dec, ast.Call) else dec
+                if (dotted(d) or '').split('.')[-1] in ('lru_cache', 'cache', 'cached_property'):
+                    n += 1
+                    rep.fail('C17.c', '%s:memoised' % f_.qualname, f_.where, '%s is memoised: stale defaults' % f_.key)
     rep.floor('C17.c', n, 16)
 
     # ---------------------------------------------------------------- C17.d
@@ -187,7 +205,7 @@ def _field_selection(repo, rep, modname, fname, kind):
     def p_ordered(it, a, k, nd):
         return a[0] if a else TupleV([])
     prims = {'fields': p_fields, 'pretty_call': p_pretty_call, 'pretty_call_alt': S.p_pretty_call_alt, 'OrderedDict': p_ordered}
-    for nf in (1, 2):
+    for nf in ((1, 2, 3) if getattr(rep, 'tier', '') == 'thorough' else (1, 2)):
         it = S.interp(repo, 'builder', prims, max_paths=4000)
         fields = [Sym('f%d' % i) for i in range(nf)]
         it.scn_fields = fields
